@@ -26,7 +26,8 @@ ASSUMPTIONS = [
     "the selected annotation instance range is non-empty and the window contains an analysed kernel or childless non-blocking "
     "operator of positive length, so that a path of positive weight exists (else annotation '' is used); a window whose "
     "edges all weigh 0 has no critical path and the analysis asserts",
-    "CUDA event record/wait pairs are not generated (no listed property needs them)",
+    "CUDA event record / stream-wait / event-synchronize calls are generated (with their wait_on_* arguments); the property does "
+    "not require their synchronisation edges to exist, only that existing edges are typed and weighted correctly",
 ]
 
 
@@ -142,6 +143,10 @@ def check_graph(run: CPRun) -> CaseInfo:
         classes.append("blocking_call_zeroed")
     if not kernels:
         classes.append("no_kernels_in_window")
+    if any(e.type.name == "SYNC_DEPENDENCY" and nodes[v].is_start for u, v, e, _ in edges):
+        classes.append("gpu_gpu_sync_edge")
+    if any(r.name in ("cudaEventRecord", "cudaStreamWaitEvent", "cudaEventSynchronize") for r in w.rows):
+        classes.append("cuda_event_calls")
     nt = len(types) >= 4 and len(by_stream) >= 2
     return CaseInfo(nontrivial=nt, classes=classes)
 
